@@ -94,6 +94,14 @@ pub fn exec(case: &[i64]) -> Outcome {
           let m_priv = identity_verification::VerificationMethod::new_from_jwk(did.clone(), j.clone(), Some("#k"));
           if m_priv.is_ok() == has_private { why = Some("verification method constructor accepted a key with private members / refused a public one".into()); }
           if let Ok(vm) = m_priv { let s = serde_json::to_string(&vm).unwrap(); if PRIVATE.iter().any(|pn| s.contains(&format!("\"{}\":", pn))) { why = Some("verification method carries a private member".into()); } }
+          // the other constructors: the builder, and the did:jwk conversions (TryFrom<DIDJwk>, CoreDocument::expand_did_jwk)
+          let leaks = |s: &str| PRIVATE.iter().any(|pn| s.contains(&format!("\"{}\":", pn)));
+          let built = identity_verification::VerificationMethod::builder(Default::default()).id(identity_did::DIDUrl::parse("did:example:123#k").unwrap()).controller(did.clone()).type_(identity_verification::MethodType::JSON_WEB_KEY_2020).data(identity_verification::MethodData::PublicKeyJwk(j.clone())).build();
+          if built.is_ok() == has_private { why = Some("MethodBuilder accepted a key with private members / refused a public one".into()); }
+          if let Ok(vm) = built { if leaks(&serde_json::to_string(&vm).unwrap()) { why = Some("verification method built by MethodBuilder carries a private member".into()); } }
+          if kty_code(j.kty()) == family(&j) { if let Ok(dj) = format!("did:jwk:{}", identity_jose::jwu::encode_b64(serde_json::to_vec(&j).unwrap())).parse::<identity_did::DIDJwk>() {
+            if let Ok(vm) = identity_verification::VerificationMethod::try_from(dj.clone()) { if leaks(&serde_json::to_string(&vm).unwrap()) { why = Some("verification method converted from a did:jwk carries a private member".into()); } }
+            if let Ok(doc) = identity_document::document::CoreDocument::expand_did_jwk(dj) { if leaks(&serde_json::to_string(&doc).unwrap()) { why = Some("document expanded from a did:jwk carries a private member".into()); } } } }
         }
       }
       put_lp(&mut obs, &t_ids);
